@@ -32,6 +32,7 @@ CHECKS = {
         "level": "exploration",
         "tests": [
             {"name": "TestC02Concurrent", "checks": [40, 600], "shards": [2, 16], "race": True, "floor": 0.9, "shrinktime": "30s"},
+            {"name": "TestC02AttrCache", "enum": True, "race": True},
             K,
         ],
         "assumptions": ["schedules are explored by repetition, goroutine counts, GOMAXPROCS and yields, not enumerated; the race detector flags unsynchronised conflicting accesses without needing the bad timing",
@@ -180,6 +181,7 @@ CHECKS = {
         "tests": [
             {"name": "TestC04Text", "checks": [4000, 150000], "shards": [2, 16], "floor": 0.7},
             {"name": "TestC04Bytes", "enum": True},
+            {"name": "TestC04Dashes", "enum": True},
             {"name": "FuzzLiteralText", "fuzz": True, "fuzztime": [0, 120]},
             K,
         ],
